@@ -21,6 +21,8 @@ type C11Case struct {
 	// not inherit anything from: "" none | "tmp" the backend answered it 451 | "open" it was accepted (for
 	// MAIL: the transaction is open and MAIL is repeated) | "refused" it was refused 5xx for its last parameter
 	Pre string `json:"pre,omitempty"`
+	// TLS: the same conversation over implicit TLS (real handshake): what a line means does not depend on it
+	TLS bool `json:"tls,omitempty"`
 }
 
 // c11Predecessor returns the predecessor line, the number of backend calls of the judged kind it causes, and
@@ -78,8 +80,29 @@ func evalC11(c C11Case) (*h.Finding, ref.Class) {
 	if preLine != "" {
 		nPre++
 	}
-	o := h.RunS(cfg, be, h.OneSeg([]byte(in)), h.TermEOF)
+	var o *h.Obs
+	if c.TLS {
+		o = &h.Obs{}
+		o.Leak, o.Panic = h.Bubble(func() {
+			live := h.NewLive(cfg, be, true)
+			o.Wire = append(o.Wire, live.Greeting()...)
+			for _, l := range strings.SplitAfter(in, "\r\n") {
+				if l != "" {
+					o.Wire = append(o.Wire, live.Send([]byte(l))...)
+				}
+			}
+			o.Wire = append(o.Wire, live.Hangup(h.TermEOF)...)
+			o.Trace = be.Trace()
+			o.Log = live.Log.String()
+		})
+		o.Replies, o.ParseErr = ref.ParseReplies(o.Wire)
+	} else {
+		o = h.RunS(cfg, be, h.OneSeg([]byte(in)), h.TermEOF)
+	}
 	desc := fmt.Sprintf("%s%s argument %q (extensions %s)", c.Cmd, map[bool]string{true: " spelled " + c.Verb, false: ""}[c.Verb != ""], c.Arg, map[bool]string{true: "on", false: "off"}[c.Ext])
+	if c.TLS {
+		desc += " over implicit TLS"
+	}
 	if preLine != "" {
 		desc += fmt.Sprintf(" after the %s line %q", map[string]string{"tmp": "backend-refused (451)", "open": "accepted", "refused": "refused (5xx)"}[c.Pre], strings.TrimSpace(preLine))
 	}
@@ -201,7 +224,7 @@ func C11(tier string) int {
 	if tier == "thorough" {
 		strLen, mutParams = 6, 2
 	}
-	run.Rule = fmt.Sprintf("(a) grammar-derived lines: %d path forms (null, plain, source-routed, quoted local part, quoted pairs, address literal, atext specials, UTF-8) x every subset of <=3 parameters with distinct keywords out of %d MAIL / %d RCPT parameter variants; (b) EVERY single-point mutation (delete, duplicate, replace by each of %q) of the lines with <=%d parameters; (c) ALL strings of <=%d characters over %q as the text after 'MAIL FROM:' and after 'RCPT TO:'; all x extension flags {all on, all off}; (d) every unmutated line of (a) once more as the line FOLLOWING a predecessor of the same command that sets every parameter and was {refused by the backend with 451, accepted (MAIL repeated inside the open transaction / a further RCPT), refused with 5xx for an unknown last parameter} - the judged line must reach the backend with its own values only. Distinct by construction (enumeration; mutations may coincide, counted once per generating position); non-trivial = classified valid or definitely invalid by the independent reference grammar (ref/pathgrammar.go) - the 'unspecified' class is only checked for 'reply 250 <=> exactly one callback'. Oracle: valid => 250 and the backend receives exactly the mailbox and the decoded option values, every other field zero; invalid => 5xx and no callback.", len(c11Paths), len(c11MailParams), len(c11RcptParams), c11Mutators, mutParams, strLen, c11Alphabet)
+	run.Rule = fmt.Sprintf("(a) grammar-derived lines: %d path forms (null, plain, source-routed, quoted local part, quoted pairs, address literal, atext specials, UTF-8) x every subset of <=3 parameters with distinct keywords out of %d MAIL / %d RCPT parameter variants; (b) EVERY single-point mutation (delete, duplicate, replace by each of %q) of the lines with <=%d parameters; (c) ALL strings of <=%d characters over %q as the text after 'MAIL FROM:' and after 'RCPT TO:'; all x extension flags {all on, all off}; (d) every unmutated line of (a) once more as the line FOLLOWING a predecessor of the same command that sets every parameter and was {refused by the backend with 451, accepted (MAIL repeated inside the open transaction / a further RCPT), refused with 5xx for an unknown last parameter} - the judged line must reach the backend with its own values only; (e) every unmutated line of (a) over implicit TLS (real handshake): same verdict as in plaintext. Distinct by construction (enumeration; mutations may coincide, counted once per generating position); non-trivial = classified valid or definitely invalid by the independent reference grammar (ref/pathgrammar.go) - the 'unspecified' class is only checked for 'reply 250 <=> exactly one callback'. Oracle: valid => 250 and the backend receives exactly the mailbox and the decoded option values, every other field zero; invalid => 5xx and no callback.", len(c11Paths), len(c11MailParams), len(c11RcptParams), c11Mutators, mutParams, strLen, c11Alphabet)
 	run.Assumptions = []string{"deliberately unspecified (not judged): missing angle brackets, space after the colon, irregular spacing, duplicate keywords, value on a flag parameter, domain syntax beyond non-empty, dot-strings with empty atoms, lower-case hex in xtext, unknown ORCPT address types, SIZE >= 2^32, non-ASCII addresses without SMTPUTF8", "a quoted local part may reach the backend quoted or de-quoted"}
 	var cases []C11Case
 	seen := map[string]bool{}
@@ -272,6 +295,14 @@ func C11(tier string) int {
 		for _, pre := range []string{"tmp", "open", "refused"} {
 			c2 := cases[i]
 			c2.Pre = pre
+			cases = append(cases, c2)
+		}
+	}
+	// every unmutated grammar line once more over implicit TLS
+	for i := 0; i < ng; i++ {
+		if plain[i] {
+			c2 := cases[i]
+			c2.TLS = true
 			cases = append(cases, c2)
 		}
 	}
